@@ -102,6 +102,20 @@ Theorem C04_ack_roundtrip : forall v kind mid rest, ack_kind_ok kind = true -> m
 Proof. exact ack_roundtrip. Qed.
 Print Assumptions C04_ack_roundtrip.
 
+(* the packet-id hypothesis of the round trips is met by EVERY id the allocator of C14 can hand out
+   (any counter state, any number of allocations and wraps): Codec/MidCodecTie.v *)
+From PahoV Require Import Codec.Mid Codec.MidCodecTie.
+Theorem C04_generated_ids_representable : forall k m, 0 <= m <= 65535 -> (0 < k)%nat ->
+  mid_ok (mid_iter k m) = true.
+Proof. exact mid_iter_representable. Qed.
+Print Assumptions C04_generated_ids_representable.
+
+Theorem C04_ack_roundtrip_generated_ids : forall v kind k m rest,
+  ack_kind_ok kind = true -> 0 <= m <= 65535 -> (0 < k)%nat ->
+  spec_decode v (ack_bytes kind (mid_iter k m) ++ rest) = Some (PAck kind (mid_iter k m) 0 [], rest).
+Proof. exact ack_roundtrip_generated. Qed.
+Print Assumptions C04_ack_roundtrip_generated_ids.
+
 Theorem C04_ping_roundtrip : forall v resp rest,
   spec_decode v (ping_bytes resp ++ rest) = Some ((if resp then PPingresp else PPingreq), rest).
 Proof. exact ping_roundtrip. Qed.
